@@ -306,6 +306,7 @@ def run(ctx, rep):
     r196(ctx, rep)
     r197(ctx, rep, fo, m)
     r198(ctx, rep, fo, fc)
+    r199(ctx, rep, m, members)
 
 
 def enum_tables(ctx):
@@ -972,3 +973,48 @@ def r198(ctx, rep, fo, fc):
 def _ctxs(node, fnode):
     from .c07 import enclosing_context
     return enclosing_context(node, fnode)
+
+
+def r199(ctx, rep, m, members, rule="R19.9"):
+    """every early read of an option in minimize uses one key consistently and
+    the local named like an option holds that option"""
+    rep.rule(rule, "`name = conv(options.get(Options.K, DEFAULT_OPTIONS[Options.K]))`: one key K in both places, and a local named like an option value is read from that option")
+    vals = {v: k for k, v in members["Options"].items()}
+    n = 0
+    for node in ast.walk(m.node):
+        if not (isinstance(node, ast.Assign) and len(node.targets) == 1 and isinstance(node.targets[0], ast.Name)):
+            continue
+        keys = []
+        for sub in ast.walk(node.value):
+            if isinstance(sub, ast.Call) and isinstance(sub.func, ast.Attribute) and sub.func.attr == "get" and isinstance(sub.func.value, ast.Name) and sub.func.value.id == "options" and sub.args:
+                k1 = member_of(sub.args[0])
+                k2 = None
+                if len(sub.args) > 1:
+                    for s2 in ast.walk(sub.args[1]):
+                        if isinstance(s2, ast.Subscript) and isinstance(s2.value, ast.Name) and s2.value.id.startswith("DEFAULT_"):
+                            k2 = member_of(s2.slice)
+                keys.append((k1, k2, sub))
+            if isinstance(sub, ast.Subscript) and isinstance(sub.value, ast.Name) and sub.value.id == "options" and member_of(sub.slice):
+                keys.append((member_of(sub.slice), None, sub))
+        if not keys:
+            continue
+        name = node.targets[0].id
+        for k1, k2, sub in keys:
+            if k1 is None:
+                continue
+            n += 1
+            desc = f"minimize:{node.lineno} {name} <- options[{k1[1]}]"
+            probs = []
+            if k2 is not None and k2 != k1:
+                probs.append(f"the value is read with key {k1[1]} but defaults to the default of {k2[1]}")
+            if name in vals and vals[name] != k1[1]:
+                probs.append(f"the local `{name}` (the option `{name}`) is read from the option `{members['Options'][k1[1]]}`")
+            if name == "verbose" and k1[1] != "VERBOSE":
+                probs.append("`verbose` is not read from the option disp")
+            if probs:
+                rep.bad(rule, desc)
+                rep.finding(rule, m, norm(node)[:140], node.lineno, "; ".join(probs) + ": the supplied value of one option is validated and completed but another one is used")
+            else:
+                rep.ok(rule, desc)
+    if n < 6:
+        raise AnalysisError(f"minimize: only {n} early option reads found (floor 6)")
